@@ -50,6 +50,8 @@ func HandWritten() []*Case {
 		mk("h30", "promoted-marker-method", "ph30", "type Shape interface{ isShape(); area() }\ntype base struct{}\nfunc (base) isShape() {}\ntype Circle struct {\n\tbase\n\tR float64\n}\nfunc (Circle) area() {}\ntype Dot struct{ base }\nfunc (Dot) area() {}\ntype W struct{ S Shape }\n", ""),
 		mk("h31", "id-after-unexported-fields", "ph31", "type IdAccount int64\ntype Account struct {\n\tdirty bool\n\tversion int\n\tName string\n\tId IdAccount\n}\ntype Entry struct {\n\tnote string\n\tIdAccount IdAccount\n\tID int64\n}\n", ""),
 		mk("h32", "unions-sharing-prefix-and-member", "ph32", "type Shape interface{ isShape() }\ntype Shadow interface{ isShadow() }\ntype Circle struct{ R float64 }\nfunc (Circle) isShape() {}\nfunc (Circle) isShadow() {}\ntype W struct {\n\tA Shape\n\tB Shadow\n}\n", ""),
+		mk("h33", "wrapper-needed-behind-anonymous-container", "ph33", "type A struct {\n\tItems []B\n\tGrid [1]M\n}\n", "type U interface{ isU() }\ntype X struct{ N int }\nfunc (X) isU() {}\ntype B struct{ V U }\ntype M map[string]U\n"),
+		mk("h34", "tagged-siblings-of-union-field", "ph34", "type U interface{ isU() }\ntype X struct{ N int }\nfunc (X) isU() {}\ntype Y string\nfunc (Y) isU() {}\ntype W struct {\n\tV U `json:\"v\"`\n\tK int `json:\"kk\"`\n\tH int `json:\"-\"`\n\tO []int `json:\"o,omitempty\"`\n\tu int\n\tL UL\n\tM UM `json:\"m\"`\n}\ntype UL []U\ntype UM map[string]U\n", ""),
 		withSub(mk("h21", "short-imported-package-name", "ph21", "type S struct{ V ab.T; W ab.N }\n", ""), "ab", "type T struct{ X int }\ntype N int\n"),
 		withSub(mk("h22", "two-letter-imported-package-name", "ph22", "type S struct{ V p2.T }\n", ""), "p2", "type T struct{ X string }\n"),
 	}
